@@ -47,6 +47,7 @@ SUBST_KINDS = {
     'R7': 'iterator-style loop header => index loop over the same sequence',
     'R11': 'std method call => same call through a wrapper fn whose spec is an assume_specification-style contract',
     'R12': 'pattern destructuring in closure/let position => field access',
+    'R14': 'explicit type ascription on a let (the type rustc infers; needed because spliced spec text mentions the variable before inference completes)',
     'R13': 'contract splice on a nested fn or closure header (adds specification text and a name for the return value; executable text unchanged)',
 }
 
